@@ -24,6 +24,24 @@ const (
 var verifRwNames = []string{"comment line", "block comment line", "blank line", "indent (spaces)", "indent (tab)", "trailing blank",
 	"trailing comment", "CRLF line ends", "CR line ends", "quote a parameter", "explicit parentheses"}
 
+// verifCommentText: CM symbolic bytes of comment text over { a # blank / * " ( } that do not contain
+// "###" (which would close a block comment): whatever a comment says, it is a comment.
+func verifCommentText(lineComment bool) string {
+	m := verifrt.Bound("CM")
+	c := verifrt.String("comment", m)
+	if lineComment && m >= 2 {
+		verifrt.Assume(!(c[0] == '#' && c[1] == '#')) // "###" would open a block comment
+	}
+	for i := 0; i < m; i++ {
+		b := c[i]
+		verifrt.Assume(b == 'a' || b == '#' || b == ' ' || b == '/' || b == '*' || b == '"' || b == '(')
+		if i >= 2 {
+			verifrt.Assume(!(c[i] == '#' && c[i-1] == '#' && c[i-2] == '#'))
+		}
+	}
+	return c
+}
+
 // verifQuoted: the line with its first parameter in double quotes, "" if it has none that can be quoted bare-equivalently.
 func verifQuoted(t int, l string) string {
 	switch t {
@@ -107,9 +125,9 @@ func VerifH_SurfaceSyntax() {
 		if i == at {
 			switch rw {
 			case rwCommentLine:
-				text1 += "# a comment" + nl
+				text1 += "#" + verifCommentText(true) + " a comment" + nl
 			case rwBlockCommentLine:
-				text1 += "### block" + nl + "comment ###" + nl
+				text1 += "###" + verifCommentText(false) + " block" + nl + "comment ###" + nl
 			case rwBlankLine:
 				text1 += "  " + nl
 			case rwIndentSpaces:
